@@ -1,7 +1,7 @@
 #!/bin/bash
 # usage: tools/eval_agent.sh <PROP> [extra check ids]  — runs the property's check on each agent mutant under /tmp/wt_out/<PROP>/m*
 P="$1"; shift
-for d in /tmp/wt_out/$P/m*/; do
+for d in ${OUTROOT:-/tmp/wt_out}/$P/m*/; do
   m=$(basename $d)
   echo "#### $P $m: $(grep -m1 -v '^\s*$' $d/notes.md | cut -c1-150)"
   LINES_MAX=${LINES_MAX:-4} /verif/tools/try_mutant.sh $d/patch.diff $P "$@" 2>&1 | cut -c1-300
